@@ -98,6 +98,9 @@ scpi_result_t vh_handler(scpi_t * context);
 /* called by vh_handler on entry (stage 0) and between the last parameter and the first result (stage 1): lets a check do what an
  * application may do inside a callback, e.g. run the parser of ANOTHER context (all library state is per context) */
 extern void (*vh_nested_hook)(scpi_t * context, int stage); /* generic instrumented handler */
+/* second, unrelated context run on every n-th input call / handler entry (0 = off); see vh_scpi.c */
+void vh_decoy_enable(unsigned every);
+uint64_t vh_decoy_runs(void);
 extern const scpi_choice_def_t vh_choices[];
 
 /* feed helpers */
